@@ -1,5 +1,6 @@
 \* trie2 as the pinned code is (FixValueDeletePath = FALSE): every property except NoOrphans holds,
 \* and the only database garbage are stale leaf entries
+\* measured: 24 708 distinct states
 CONSTANTS
   H = 3
   MaxV = 1
